@@ -1,10 +1,90 @@
-"""Runs the per-property corpora.  Filled in as corpora are added (see corpus.py)."""
+"""Runs the per-property corpora: every mutation variant (one instance broken, still compiles) must make the
+check exit 1 and name the expected rule; every refactor variant (behaviour preserved) must stay silent.
+Scratch copies live under a fresh tempfile.mkdtemp() and are removed in a finally."""
+import os
+import shutil
+import subprocess
+import sys
+import tempfile
+from concurrent.futures import ThreadPoolExecutor
+from pathlib import Path
+
+from ..model import repo_root
 
 
-def run(prop):
-    try:
-        from . import corpus
-    except ImportError:
-        print(f"[{prop}] selftest: no corpus yet")
+def _apply(root, edits):
+    for rel, old, new in edits:
+        p = Path(root) / rel
+        s = p.read_text(encoding="utf-8")
+        if s.count(old) != 1:
+            return f"anchor text occurs {s.count(old)} times in {rel}: {old[:60]!r}"
+        p.write_text(s.replace(old, new), encoding="utf-8")
+        try:
+            compile(p.read_text(encoding="utf-8"), str(p), "exec")
+        except SyntaxError as e:
+            return f"variant does not compile: {e}"
+    return None
+
+
+def _one(prop, variant, base, tmp):
+    name, kind, edits, rule = variant
+    root = Path(tmp) / f"{prop}_{name}"
+    shutil.copytree(base / "beyond", root / "beyond", ignore=shutil.ignore_patterns("__pycache__"))
+    err = _apply(root, edits)
+    if err:
+        return name, kind, "BROKEN-VARIANT", err
+    env = dict(os.environ, BVSTATIC_REPO=str(root), BVSTATIC_EVIDENCE=str(root / "evidence"), BVSTATIC_NO_SELFTEST="1")
+    p = subprocess.run([sys.executable, "-B", "-m", "bvstatic", prop, "--tier", "quick"], cwd=str(Path(__file__).resolve().parents[2]),
+                       env=env, capture_output=True, text=True)
+    out = p.stdout
+    shutil.rmtree(root, ignore_errors=True)
+    if kind == "fire":
+        ok = p.returncode == 1 and "VIOLATION" in out and (rule is None or f"rule={rule} " in out)
+        return name, kind, "ok" if ok else "MISSED", "" if ok else f"rc={p.returncode}; expected rule {rule}; got: " + "; ".join(l for l in out.splitlines() if "FAIL" in l or "ANALYSIS" in l)[:400]
+    ok = p.returncode == 0 and "VIOLATION" not in out
+    return name, kind, "ok" if ok else "FALSE-ALARM", "" if ok else "; ".join(l for l in out.splitlines() if "FAIL" in l or "ANALYSIS" in l)[:400]
+
+
+def run(prop, jobs=16):
+    from . import corpus
+    variants = corpus.CORPUS.get(prop, [])
+    if not variants:
+        print(f"[{prop}] selftest: no corpus")
         return 0
-    return corpus.run(prop)
+    results = []
+    base = repo_root()
+    tmp = tempfile.mkdtemp(prefix="bvselftest_")
+    bad = 0
+    try:
+        with ThreadPoolExecutor(max_workers=jobs) as ex:
+            results = list(ex.map(lambda v: _one(prop, v, base, tmp), variants))
+        for name, kind, verdict, msg in results:
+            if verdict != "ok":
+                bad += 1
+                print(f"  SELFTEST {verdict} {prop}/{name} ({kind}) {msg}")
+        n_fire = sum(1 for v in variants if v[1] == "fire")
+        print(f"[{prop}] selftest: {len(variants)} variants ({n_fire} mutations must fire, {len(variants) - n_fire} refactors must stay silent): {len(variants) - bad} ok, {bad} bad")
+    finally:
+        shutil.rmtree(tmp, ignore_errors=True)
+    _annotate(prop, variants, results, bad)
+    if bad:
+        print(f"ANALYSIS-ERROR property={prop} checker self-test failed ({bad} variants)")
+        return 2
+    return 0
+
+
+def _annotate(prop, variants, results, bad):
+    """Record the self-test in the evidence file the main run has just written."""
+    import json
+    from ..report import EVIDENCE_DIR
+    p = EVIDENCE_DIR / f"{prop}.json"
+    if not p.exists():
+        return
+    ev = json.loads(p.read_text())
+    ev["coverage"]["selftest"] = {
+        "mutation_variants": sum(1 for v in variants if v[1] == "fire"),
+        "refactor_variants": sum(1 for v in variants if v[1] == "silent"),
+        "bad": bad,
+        "variants": [{"name": r[0], "kind": r[1], "verdict": r[2]} for r in results],
+    }
+    p.write_text(json.dumps(ev, indent=1, ensure_ascii=False))
